@@ -39,7 +39,8 @@ def gen(rng, tier):
                 # ---- HTTP/1 transport pause
                 # (eof: the client has finished sending - half-closed - and takes nothing: it is not waited for beyond the time an idle
                 #  connection is kept)
-                for release in ("resume", "reset", "protocol_error", "eof", "protocol_error_partial"):
+                # (eof_pipelined: the same, with a second request already pipelined behind the one whose response is being written)
+                for release in ("resume", "reset", "protocol_error", "eof", "protocol_error_partial", "eof_pipelined"):
                     cases.append(("h1.pause", size, chunk, point, release, 0))
                 # ---- HTTP/2
                 for kind in ("h2.stream0", "h2.conn0", "h2.pause"):
@@ -190,19 +191,21 @@ def _build(rng, n, kind, size, chunk, point, release, sib):
             # (_partial: ... and the client takes a little of what is pending while the server waits for it, then nothing more)
             req = b"POST /t%d HTTP/1.1\r\nHost: h\r\nTransfer-Encoding: chunked\r\n\r\n5\r\nhello\r\n" % tag
             script[0] = ["recv"]
+        if release == "eof_pipelined":
+            req += b"GET /second HTTP/1.1\r\nHost: h\r\n\r\n"
         client = []
         if point == "mid":
             client += [["feed", req], ["settle"], ["pause"], ["trigger", "go"], ["settle"]]
         else:
             client += [["pause"], ["feed", req], ["settle"]]
         client += [["mark", "stall"]]
-        client += {"resume": [["resume"]], "reset": [["reset"]], "protocol_error": [["feed", b"zz\r\nnot-a-chunk\r\n"]], "eof": [["eof"]],
+        client += {"resume": [["resume"]], "reset": [["reset"]], "protocol_error": [["feed", b"zz\r\nnot-a-chunk\r\n"]], "eof": [["eof"]], "eof_pipelined": [["eof"]],
                    "protocol_error_partial": [["feed", b"zz\r\nnot-a-chunk\r\n"], ["settle"], ["advance", 2.5], ["take", 1000]]}[release]
         client += [["settle"]]
         return {"family": "%s.%s.%s" % (kind, point, release), "backends": ["asyncio", "trio"] if release != "protocol_error_partial" else ["asyncio"],
                 # (a close the server itself decides on is still owed what it had written: a client that takes none of it is waited for as
                 #  long as an idle connection is kept, here 5 s of virtual time, not for ever)
-                "config": {"keep_alive_timeout": 5000 if release not in ("protocol_error", "eof", "protocol_error_partial") else 5}, "conn": {}, "apps": {"default": script, "by_tag": by_tag},
+                "config": {"keep_alive_timeout": 5000 if release not in ("protocol_error", "eof", "protocol_error_partial", "eof_pipelined") else 5}, "conn": {}, "apps": {"default": script, "by_tag": by_tag},
                 "client": client, "truth": truth, "sched": {"seed": rng.randrange(1 << 30)}, "horizon": 100.0}
     fb = FrameBuilder()
     rspec = {"kind": "h2", "credit": "none"}
@@ -601,5 +604,5 @@ def check(case, obs, tally):
 
 
 def _rel_name(t):
-    return {"eof": "client-eof", "rst": "rst-stream", "reset": "client-reset", "resume": "resume", "credit": "credit",
+    return {"eof": "client-eof", "eof_pipelined": "client-eof-behind-pipelined-request", "rst": "rst-stream", "reset": "client-reset", "resume": "resume", "credit": "credit",
             "settings_grow": "settings-growth", "protocol_error": "server-closes-on-protocol-error", "protocol_error_partial": "server-closes-client-takes-a-little", "goaway": "client-goaway", "ping_rst": "paused-ping-then-rst-stream"}[t["release"]]
